@@ -205,3 +205,19 @@ Proof.
   - destruct (last_is_dotdot (segs v)); [apply push_wf; auto using dotdot_noslash, dotdot_noqh|].
     destruct (render_removelast_prefix v (wp_qh _ _ _ W) E) as (k & ->). now apply prefix_wf.
 Qed.
+
+(* C12: last() *)
+Theorem pq_last_spec v : none_of [QM; HASH] v ->
+  match pq_last v with
+  | Some (Some r) => last_opt (segs v) = Some (slice v r)
+  | Some None => segs v = []
+  | None => False
+  end.
+Proof.
+  intros H. destruct (path_is_empty v) eqn:E.
+  - unfold pq_last. rewrite E. destruct v as [|c [|d r]]; try discriminate; [reflexivity|]. cbn [path_is_empty] in E. unfold segs. rewrite E. reflexivity.
+  - destruct (nonempty_decomp v H E) as (pfx & l' & x & Hpfx & Epfx & El & Ev & Hs & Hf).
+    assert (Hne : path_is_empty (P pfx (l' ++ [x])) = false) by (rewrite <- Ev; exact E).
+    destruct (pq_last_value pfx l' x Hpfx Hs Hf Hne) as (r & Er & Esl). rewrite <- Ev in Er, Esl. rewrite Er, Esl, El.
+    unfold last_opt. rewrite rev_app_distr. reflexivity.
+Qed.
